@@ -77,6 +77,10 @@ func reentrant(c *core.Ctx) {
 
 func Run(c *core.Ctx) {
 	defer reentrant(c)
+	withViews(c, run)
+}
+
+func run(c *core.Ctx) {
 	pk := c.Pkg(pkgFilter)
 	gmk := c.Func(pkgFilter, "", "getMatchKeys")
 	wrap := c.Func(pkgFilter, "", "HandleFilterKeyWithCommand")
@@ -84,6 +88,16 @@ func Run(c *core.Ctx) {
 	if pk == nil || gmk == nil || wrap == nil || fkey == nil {
 		return
 	}
+	// the instance counts are taken however far the rules get: when they stop early
+	// on this view of the tree, what was not reached must be shown on another view
+	defer func() {
+		c.Expect("R1.convention", 3)
+		c.Expect("R2.table", 65)
+		c.Expect("R3.ranges", 4)
+		c.Expect("R5.predicate", 2)
+		c.Expect("R4.verdict", 8)
+		c.Expect("R4.caller", 2)
+	}()
 	// ---- R1 interpreter convention
 	it := &interp{c: c, fn: gmk, info: pk.TypesInfo}
 	if why := it.recover(fkey.Obj); why != "" {
@@ -165,19 +179,14 @@ func Run(c *core.Ctx) {
 				fmt.Sprintf("the first key of %s is argument %d, so arguments [0,%d) must be copied in front of the kept keys; the interpreter copies a prefix of %d: whenever a key filter is configured the leading non-key argument(s) are lost even if all keys pass (BITOP AND d s1 s2 is forwarded as BITOP d s1 s2)", strings.ToUpper(e.name), cv.F, cv.F, cv.P))
 		}
 	}
-	c.Expect("R2.table", 65)
 	c.Check("R1.convention", "getMatchKeys/consistent-with-table", tpos, failed*2 <= len(entries),
 		fmt.Sprintf("%d of %d table entries disagree with Redis under the recovered convention: the interpreter and the table no longer speak the same convention, most multi-key commands are rewritten wrongly", failed, len(entries)))
 
 	// ---- R3 data flow
 	it.r3()
-	c.Expect("R3.ranges", 4)
 
 	// ---- R4, R5
-	wiring(c, it, wrap, fkey)
-	c.Expect("R5.predicate", 2)
-	c.Expect("R4.verdict", 8)
-	c.Expect("R4.caller", 2)
+	wiring(c, it, wrap, fkey, entries)
 }
 
 func srcOr(c *core.Ctx, e ast.Expr, dflt string) string {
@@ -205,7 +214,7 @@ func table(c *core.Ctx, it *interp, wrap, gmk *core.Fn) ([]entry, token.Pos) {
 	for _, call := range core.Calls(wrap.Decl.Body, info, func(_ *ast.CallExpr, o types.Object) bool { return o == types.Object(gmk.Obj) }) {
 		if len(call.Args) == 2 {
 			src := call.Args[0]
-			if o := objOf(info, src); o != nil {
+			if o := copySource(info, wrap.Decl.Body, objOf(info, src)); o != nil {
 				ast.Inspect(wrap.Decl.Body, func(n ast.Node) bool {
 					if as, ok := n.(*ast.AssignStmt); ok && len(as.Rhs) == 1 && len(as.Lhs) >= 1 && objOf(info, as.Lhs[0]) == o {
 						src = as.Rhs[0]
